@@ -320,7 +320,11 @@ func c07Stream(r *rand.Rand, k int, maxPieces int) ([]byte, map[string]bool) {
 	kinds := map[string]bool{}
 	var sb strings.Builder
 	n := 1 + r.Intn(maxPieces)
-	for i := 0; i < n && sb.Len() < 220; i++ {
+	limit := 220
+	if maxPieces > 10 {
+		limit = 9000
+	}
+	for i := 0; i < n && sb.Len() < limit; i++ {
 		p, kind := c07Piece(r, k)
 		sb.WriteString(p)
 		kinds[kind] = true
@@ -329,8 +333,8 @@ func c07Stream(r *rand.Rand, k int, maxPieces int) ([]byte, map[string]bool) {
 }
 
 // byte strings for Format and the round trip
-func c07Text(r *rand.Rand) ([]byte, string) {
-	n := r.Intn(40)
+func c07Text(r *rand.Rand) ([]byte, string) { return c07TextN(r, r.Intn(40)) }
+func c07TextN(r *rand.Rand, n int) ([]byte, string) {
 	switch r.Intn(5) {
 	case 0: // arbitrary bytes
 		b := make([]byte, n)
@@ -453,7 +457,12 @@ func c07Gen(c *Ctx) {
 	c.Each(n, func(i int, t *T) {
 		r := t.R
 		k := i % 4
-		b, kinds := c07Stream(r, k, 7)
+		mp := 7
+		if i%400 == 11 { // long inputs: output buffers sized from the input, scratch arrays, growth
+			mp = []int{40, 150, 400}[r.Intn(3)]
+			t.C.Count("long-inputs", "parser stream")
+		}
+		b, kinds := c07Stream(r, k, mp)
 		variant := int64(r.Intn(3))
 		fam := "stream-" + c07Names[4+k]
 		for kind := range kinds {
@@ -486,6 +495,10 @@ func c07Gen(c *Ctx) {
 		r := t.R
 		k := i % 4
 		b, kind := c07Text(r)
+		if i%400 == 13 {
+			b, kind = c07TextN(r, 50+r.Intn([]int{100, 400, 1500}[r.Intn(3)]))
+			t.C.Count("long-inputs", "format text")
+		}
 		t.C.Count("text", kind)
 		v := int64(r.Intn(4))
 		nt := len(b) >= 2
@@ -568,6 +581,6 @@ func c07Shrink(in []int64) [][]int64 {
 }
 
 func init() {
-	Register(&Prop{ID: "C07", Num: 7, SpecMode: "equal", Gen: c07Gen, Impl: c07Impl, Shrink: c07Shrink, Describe: c07Describe,
+	Register(&Prop{ID: "C07", Pure: true, Num: 7, SpecMode: "equal", Gen: c07Gen, Impl: c07Impl, Shrink: c07Shrink, Describe: c07Describe,
 		Rule: "parsers: (a) exhaustive: every sequence of <= 5 (thorough: 7) symbols over two 6-symbol alphabets per codec (characters; tokens building complete / truncated / out-of-range / adjacent escapes); (b) every byte value as an escape in both cases; every sequence of <= 3 escapes over the code units D7FF D800 DBFF DC00 DFFF E000 (bare, text-separated, backslash-separated) for Utf16Parse and UnicodeParse; (c) random concatenations of pieces {well-formed escape with random digit case, truncated escape, escape with one bad digit incl. the characters at the edges of the digit classes, boundary and out-of-range values (\\777, \\400, \\U00110000, \\UFFFFFFFF, \\U0000D800), lone / reversed / unpaired / doubled surrogates, a high surrogate followed by text, a backslash, a damaged or a BMP escape (directly, behind text, behind a backslash), adjacent escapes, bare backslashes and prefixes, text, raw UTF-8, raw bytes >= 0x80}, each fifth input also cut at every distance 1..W+2 from its end; entry points Parse(dst,src) (len(dst) = len(src), longer, or shorter), ParseToString(string), ParseToString([]byte), all slices with cap = len. Format and Parse∘Format: random bytes, valid UTF-8 of all four widths incl. the boundary scalars, damaged UTF-8 (surrogate encodings, overlongs, > U+10FFFF, truncated sequences), escape-looking text; all four entry points. Output compared byte for byte with the model (sub 0) and with the list-level specification (sub 1). distinct = distinct (op, variant, len(dst), argument); non-trivial = parser input of at least one escape width containing a backslash; Format / round-trip argument of at least 2 bytes"})
 }
